@@ -31,6 +31,13 @@ Theorem bleu_order_irrelevant : forall (c : bcfg) (bs bs' : list bbatch),
   class_run bleu_spec_add c bs = class_run bleu_spec_add c bs'.
 Proof. exact (fun c => CountingCatP.order_invariant bleu_spec_add c). Qed.
 
+(* V_fixed (repaired _bleu_score_compute): the same invariance *)
+Theorem bleu_multiset_only_fixed : forall (c : bcfg) (bs bs' : list bbatch),
+  Forall (bleu_valid c) bs -> Forall (bleu_valid c) bs' ->
+  Permutation (concat bs) (concat bs') ->
+  class_run (bleu_spec_add_v V_fixed) c bs = class_run (bleu_spec_add_v V_fixed) c bs'.
+Proof. exact (bleu_multiset_v V_fixed). Qed.
+
 (* non-vacuity: the same five pairs, permuted and re-batched *)
 Open Scope Z_scope.
 Example wer_rebatching_example :
@@ -67,3 +74,4 @@ Print Assumptions word_information_preserved_multiset_only.
 Print Assumptions word_information_lost_multiset_only.
 Print Assumptions bleu_multiset_only.
 Print Assumptions bleu_order_irrelevant.
+Print Assumptions bleu_multiset_only_fixed.
